@@ -203,7 +203,33 @@ func c08Variants(seed uint64, size int) ([]c08Variant, map[string]int) {
 		{"rand-all", layout(renderProgram(body, r.Fork(6), 20, true, true), "rand", r.Fork(7))},
 		{"min-all", layout(renderProgram(body, r.Fork(8), 15, true, true), "min", r.Fork(9))},
 	}
+	// the scanner reads through a 4096-byte buffer and looks one byte ahead at every line end: the same texts
+	// shifted by leading blanks so that a two-byte line end straddles the end of the first buffer fill
+	// (blanks before the first token change neither the tokens nor their lines)
+	ar := r.Fork(10)
+	for _, bi := range []int{2, 4, 8} { // crlf, lfcr, rand-all
+		if a := alignTwoByteLineEnd(vs[bi].src, ar, 4095); a != "" {
+			vs = append(vs, c08Variant{vs[bi].name + "-straddle", a})
+		}
+	}
 	return vs, hist
+}
+
+// alignTwoByteLineEnd prefixes src with blanks so that the first byte of one of its CR LF / LF CR pairs lands on
+// byte offset `at` (the last byte of a buffer fill); "" when src has no such pair before that offset.
+func alignTwoByteLineEnd(src string, r *Rng, at int) string {
+	var pos []int
+	for i := 0; i+1 < len(src) && i <= at; i++ {
+		if (src[i] == '\r' && src[i+1] == '\n') || (src[i] == '\n' && src[i+1] == '\r') {
+			pos = append(pos, i)
+			i++
+		}
+	}
+	if len(pos) == 0 {
+		return ""
+	}
+	i := pos[r.Intn(len(pos))]
+	return strings.Repeat(" ", at-i) + src
 }
 
 func c08Prog(seed uint64, size int, run bool) []string {
@@ -593,7 +619,7 @@ func runC08(run *Run) {
 		nBytes, nSoup, nMut, nProg, nTrunc, nNum, nFile = 150000, 150000, 120000, 6000, 300, 40000, 3000
 		deepSizes = []int{10, 199, 250, 2000, 10000}
 	}
-	run.Rule = "inputs: random bytes, token soup (valid and malformed lexemes incl. every blank/line-end/comment form), generated valid programs in 10 layouts each (canonical, minimal-separator, CRLF, CR, LFCR, random blanks+comments+semicolons, redundant parentheses, alternative literal spellings, all combined), byte-level mutations and truncations of those, every prefix of selected programs, numerals, nesting up to depth 10^4 (thorough; 2000 quick), LoadFile with '#' first lines, the repository's .lua files. Each input: real LoadString under recover+timeout (panic/timeout = violation), real token stream vs the Lean scanner model (exact incl. line/column/PNewLine/error), vs the Lua 5.1 lexical grammar (Spec); layouts of one program: instruction-identical protos modulo line tables and identical emit traces (Impl vs Impl). distinct = distinct op-kind skeletons of cases with >= 3 ops"
+	run.Rule = "inputs: random bytes, token soup (valid and malformed lexemes incl. every blank/line-end/comment form), generated valid programs in 13 layouts each (canonical, minimal-separator, CRLF, CR, LFCR, random blanks+comments+semicolons, redundant parentheses, alternative literal spellings, all combined, and the two-byte-line-end layouts shifted so that a CR LF / LF CR pair straddles the scanner's 4096-byte read-ahead buffer), byte-level mutations and truncations of those, every prefix of selected programs, numerals, nesting up to depth 10^4 (thorough; 2000 quick), LoadFile with '#' first lines, the repository's .lua files. Each input: real LoadString under recover+timeout (panic/timeout = violation), real token stream vs the Lean scanner model (exact incl. line/column/PNewLine/error), vs the Lua 5.1 lexical grammar (Spec); layouts of one program: instruction-identical protos modulo line tables and identical emit traces (Impl vs Impl). distinct = distinct op-kind skeletons of cases with >= 3 ops"
 	run.Assume = []string{
 		"bufio.Reader: ReadByte/UnreadByte deliver the bytes of the input in order (modelled as a list of bytes)",
 		"the goyacc table driver and the compiler are not modelled: their outcome is observed on the real code only (panic/timeout detection, layout invariance Impl vs Impl)",
@@ -660,7 +686,14 @@ func runC08(run *Run) {
 		if r.Chance(15) {
 			body = ""
 		}
-		content := Pick(r, fileHeads) + body
+		head := Pick(r, fileHeads)
+		if i%4 == 3 {
+			// a first line that does not fit the loader's 4096-byte buffer (length around 1× and 2× the buffer
+			// size), with each kind of line end and without any
+			n := Pick(r, []int{4090, 4094, 4095, 4096, 4097, 4098, 5000, 8190, 8191, 8192, 8193, 9000}) + r.Intn(2)
+			head = "#!" + strings.Repeat(Pick(r, []string{"x", "-", " ", "a b"}), n)[:n] + Pick(r, []string{"\n", "\r\n", "", "\n\n"})
+		}
+		content := head + body
 		add([]Op{{Args: []string{"file", hexOrDash([]byte(content)), strconv.Itoa(i)}}}, "file")
 	}
 	idx = 8000000
@@ -713,5 +746,5 @@ func runC08(run *Run) {
 		kinds[c.Note]++
 	}
 	run.Extra["cases_by_stream"] = kinds
-	run.Extra["layouts_per_program"] = 10
+	run.Extra["layouts_per_program"] = 13
 }
